@@ -206,6 +206,7 @@ pub fn optimize(code: Vec<UnOptCode>, level: u8) -> Result<(OptState, Vec<OptCod
                 now = un_opt_code.get_dot_count();
             }
         }
+        chk.push(now);
 
         chk.sort_unstable();
         for i in chk {
